@@ -491,9 +491,16 @@ def rule_flow_sync(ctx):
             is_role, probs = _remove_role_summary(ctx, nid)
             if is_role:
                 roles[nid] = probs
-                r.instance(function=nid, role='remove-role', problems=probs)
-                for pr in probs:
-                    r.violate(nid, 'remove-role', pr, 'remove role %s: %s' % (nid, pr), where=ctx.where(nid))
+    # a shared body that leaves a step (e.g. the unlinking, passed in as a closure) to its callers is judged through them: its own
+    # summary counts only if some caller is not itself a complete remove role
+    for nid, probs in sorted(roles.items()):
+        cs = {(prog.bodies[c].root if prog.bodies[c].kind == 'closure' and prog.bodies[c].root else c) for c in prog.callers().get(nid, ())} - {nid}
+        through_callers = bool(probs) and bool(cs) and all(c in roles and not roles[c] for c in cs)
+        r.instance(function=nid, role='remove-role', problems=probs, judged_through_callers=sorted(cs) if through_callers else None)
+        if through_callers:
+            continue
+        for pr in probs:
+            r.violate(nid, 'remove-role', pr, 'remove role %s: %s' % (nid, pr), where=ctx.where(nid))
     if len(roles) < 2:
         raise CheckFailure('FLOW-counters(sync): expected 2 remove-role functions, found %s' % sorted(roles))
     # the upsert role: function consuming (old_weight, new_weight) of a write op
@@ -645,28 +652,44 @@ def rule_flow_sync(ctx):
             r.violate(cn, 'consumer-arms', 'WriteOp', 'the write-op consumer does not dispatch Upsert to the upsert role and Remove to the remove role', where=ctx.where(cn))
     if not cons:
         raise CheckFailure('FLOW-counters(sync): write-op consumer not found')
-    # FLOW-op-weights: what a write op carries is fixed when it is created
+    # FLOW-op-weights: what a write op carries is fixed when it is created, under the lock of the key's map slot
     root = named(ctx, 'sync.do_insert')
     if root in prog.bodies:
-        for c in sorted(prog.closures_of.get(root, [])):
-            for p in [q for q in ctx.symex(inline_depth=3).run(c) if not q.diverged]:
-                ups = [x for ev in p.events if ev[0] == 'write' for x in subterms(ev[2]) if isinstance(x, tuple) and x and x[0] == 'aggr' and x[2] == 'Upsert']
-                for u in ups:
-                    from .roles import upsert_fields
-                    fn_ = upsert_fields(ctx)
-                    vals = dict(zip(fn_, u[3]))
-                    ow, nw = vals.get('old_weight'), vals.get('new_weight')
-                    is_update = any(ev[0] == 'call' and str(ev[1]).startswith('std::sync::atomic::') and 'policy_weight' in fmt(ev[2][0]) for ev in p.events)
-                    if is_update:
-                        okw = isinstance(ow, tuple) and ow[0] == 'call' and str(ow[1]).endswith('::load') and 'policy_weight' in fmt(ow)
-                    else:
-                        okw = ow == ('c', 0)
-                    okn = isinstance(nw, tuple) and nw[0] in ('fld', 'param', 'payload')
-                    r.instance(closure=c, kind='update' if is_update else 'insert', old_weight=fmt(ow)[:50], new_weight=fmt(nw)[:40], ok=okw and okn)
-                    if not (okw and okn):
-                        r.violate(c, 'op-weights', 'old=%s' % fmt(ow)[:30], 'the write op created by %s carries old_weight `%s` / new_weight `%s`: an update must carry the replaced entry\'s stored weight '
-                                  '(unconditionally -- it is applied after every earlier op of that entry), an insert 0, both the new weigher result' % (c, fmt(ow)[:50], fmt(nw)[:40]),
-                                  where=ctx.where(c), expected='Upsert { old_weight: entry.policy_weight() | 0, new_weight: weight }')
+        from .roles import upsert_fields
+        from .symex import OCC_GET_MUT
+        fn_ = upsert_fields(ctx)
+        nops = 0
+        try:
+            rpaths = [q for q in ctx.symex(inline_depth=6, loop_visits=2).run(root) if not q.diverged]
+        except PathLimit:
+            raise CheckFailure('FLOW-op-weights: path limit in %s' % root)
+        for p in rpaths:
+            ups = [x for x in subterms(p.ret) if isinstance(x, tuple) and x and x[0] == 'aggr' and x[2] == 'Upsert'] if p.ret is not None else []
+            occupied = None
+            for c_, v_ in p.conds:
+                if isinstance(c_, tuple) and c_[0] == 'discr' and isinstance(c_[1], tuple) and c_[1][0] == 'call' and str(c_[1][1]).endswith('DashMap::entry'):
+                    occupied = (v_ == 0)
+            for u in ups:
+                nops += 1
+                vals = dict(zip(fn_, u[3]))
+                ow, nw = vals.get('old_weight'), vals.get('new_weight')
+                if occupied:
+                    # the replaced entry's stored weight, read from the occupied slot itself (i.e. under the shard lock that also covers the replacement)
+                    okw = isinstance(ow, tuple) and ow[0] == 'call' and str(ow[1]).endswith('::load') and 'policy_weight' in fmt(ow) and \
+                        any(isinstance(x, tuple) and x and x[0] == 'call' and x[1] == OCC_GET_MUT for x in subterms(ow))
+                else:
+                    okw = ow == ('c', 0)
+                stored = [e for e in p.events if e[0] == 'call' and str(e[1]).endswith('::store') and 'policy_weight' in fmt(e[2][0])]
+                okn = isinstance(nw, tuple) and (nw[0] in ('fld', 'param', 'payload') or (nw[0] == 'call' and 'callback' in str(nw[1])) or nw == ('c', 1) or
+                                                 any(len(e[2]) > 1 and e[2][1] == nw for e in stored))
+                r.instance(function=root, kind='update' if occupied else 'insert', old_weight=fmt(ow)[:60], new_weight=fmt(nw)[:40], ok=bool(okw and okn))
+                if not (okw and okn):
+                    r.violate(root, 'op-weights', 'old=%s' % ('slot' if occupied else 'vacant'), 'the write op created by %s on the %s path carries old_weight `%s` / new_weight `%s`: an update must carry the '
+                              'replaced entry\'s stored weight read from the map slot it replaces (under the same shard lock -- unconditionally, it is applied after every earlier op of that '
+                              'entry), an insert 0, both the new weigher result' % (root, 'occupied-slot' if occupied else 'vacant-slot', fmt(ow)[:60], fmt(nw)[:40]),
+                              where=ctx.where(root), expected='Upsert { old_weight: slot.policy_weight() | 0, new_weight: weight }')
+        if nops < 2 and not r.violations:
+            raise CheckFailure('FLOW-op-weights: only %d write op(s) found on the paths of %s' % (nops, root))
     # AUTH-counter-writers / MUST-publish
     maint = sorted(R.maintenance)
     for f in ('entry_count', 'weighted_size'):
